@@ -36,9 +36,19 @@ impl Sys {
                 let h: BytesN<32> = e.deployer().upload_contract_wasm(wasm.as_slice());
                 (e.register(v1::ExampleContract, (a,)), Some(h))
             }
+            "upgrade2" => {
+                // v2 deployed directly (never upgraded); its owner entry is what v1's constructor would have written
+                let wasm = std::fs::read(V2_WASM).expect("prebuilt v2 wasm");
+                let h: BytesN<32> = e.deployer().upload_contract_wasm(wasm.as_slice());
+                let c = e.register(v2::ExampleContract, ());
+                e.as_contract(&c, || e.storage().instance().set(&v2::OWNER, &a));
+                (c, Some(h))
+            }
             f => panic!("flavour {f}"),
         };
-        Sys { e, names, c, flavour: flavour.to_string(), is_v2: false, hash }
+        let is_v2 = flavour == "upgrade2";
+        let flavour_s = flavour.to_string();
+        Sys { e, names, c, flavour: flavour_s, is_v2, hash }
     }
 
     fn obs(&self) -> Value {
@@ -48,7 +58,7 @@ impl Sys {
         } else {
             false
         };
-        let pending = if self.flavour == "upgrade" {
+        let pending = if self.flavour.starts_with("upgrade") {
             self.e.as_contract(&self.c, || stellar_contract_utils::upgradeable::can_complete_migration(&self.e))
         } else {
             false
@@ -79,7 +89,7 @@ impl Sys {
                 let cl = counter::ExampleContractClient::new(e, &self.c);
                 if kind == "pause" { res_of(&cl.try_pause(&caller)) } else { res_of(&cl.try_unpause(&caller)) }
             }
-            ("upgrade", "upgrade") => {
+            ("upgrade", "upgrade") | ("upgrade2", "upgrade") => {
                 let h = self.hash.clone().unwrap();
                 set_auth_same(e, &who, &Inv::new(&self.c, "upgrade", args(e, (h.clone(), caller.clone()))));
                 let r = if self.is_v2 {
@@ -94,7 +104,7 @@ impl Sys {
                 }
                 r
             }
-            ("upgrade", "migrate") => {
+            ("upgrade", "migrate") | ("upgrade2", "migrate") => {
                 if !self.is_v2 {
                     // v1 has no migrate entry point: the call cannot even be dispatched
                     ("fail", -4)
@@ -136,7 +146,7 @@ fn main() {
             let mut t = Trace::create(&output);
             let mut r = StdRng::seed_from_u64(seed);
             for run in 0..runs {
-                let fl = if run % 2 == 0 { "counter" } else { "upgrade" };
+                let fl = match run % 4 { 0 | 2 => "counter", 1 => "upgrade", _ => "upgrade2" };
                 let mut sys = Sys::new(fl);
                 t.reset(sys.reset_event());
                 for _ in 0..len {
